@@ -65,6 +65,9 @@ RAW_VERSION3 = b'\x00\x03\xaa\x55'
 
 def threadmap_entry(tid, pid, name):
     """kd_threadmap (64-bit): uintptr_t thread; int valid(pid); char command[20] (NUL-terminated, strlcpy)"""
+    if isinstance(name, bytes) and len(name) == 20:
+        # a raw command field: the name ends at the first NUL, what follows is whatever the buffer held before
+        return to_le(tid, 8) + to_le(pid, 4) + name
     assert isinstance(name, bytes) and len(name) <= 19 and b'\x00' not in name
     return to_le(tid, 8) + to_le(pid, 4) + name + bytes(20 - len(name))
 
@@ -84,7 +87,7 @@ def v2_file(threads, pad, records, is_64bit=1, tick_frequency=24000000):
 
 def fold_threadmap(threads):
     """the tables a thread map declares: later entries win -> (tid->pid, pid->name) as association lists"""
-    return [(t, p) for t, p, _ in threads], [(p, n.decode()) for _, p, n in threads]
+    return [(t, p) for t, p, _ in threads], [(p, n.split(b'\x00')[0].decode()) for _, p, n in threads]
 
 
 # ------------------------------------------------------------------------------ kernel emitters of split texts
